@@ -25,6 +25,16 @@ import (
 
 const Root = "/verif"
 
+// outRoot is where evidence and replay files go: Root, unless VERIF_OUT redirects them (used when a check is
+// run against a patched copy of the repository, tools/check_mutant.sh, so that the registered evidence is
+// not overwritten).
+func outRoot() string {
+	if d := os.Getenv("VERIF_OUT"); d != "" {
+		return d
+	}
+	return Root
+}
+
 // Violation is one failing case.
 type Violation struct {
 	Class  string          `json:"class"`  // structural class key (operator/kinds/context/oracle category)
@@ -461,7 +471,7 @@ func coordinate(p *Prop, tier string, seed int64, workers int, triage, writeKnow
 	for _, cl := range unknown {
 		v := merged.Violations[cl][0]
 		sum := sha1.Sum([]byte(cl))
-		dir := filepath.Join(Root, "replays", p.ID)
+		dir := filepath.Join(outRoot(), "replays", p.ID)
 		os.MkdirAll(dir, 0o755)
 		path := filepath.Join(dir, hex.EncodeToString(sum[:6])+".json")
 		if !triage {
@@ -531,8 +541,8 @@ func coordinate(p *Prop, tier string, seed int64, workers int, triage, writeKnow
 	}
 	if !triage {
 		data, _ := json.MarshalIndent(ev, "", " ")
-		os.MkdirAll(filepath.Join(Root, "evidence"), 0o755)
-		os.WriteFile(filepath.Join(Root, "evidence", p.ID+".json"), data, 0o644)
+		os.MkdirAll(filepath.Join(outRoot(), "evidence"), 0o755)
+		os.WriteFile(filepath.Join(outRoot(), "evidence", p.ID+".json"), data, 0o644)
 	}
 	fmt.Printf("%s tier=%s evaluations=%d distinct_nontrivial=%d outcomes=%d states=%d transitions=%d exhaustive=%v violations=%d wall=%.1fs\n",
 		p.ID, tier, merged.Evals, len(hashes), len(outcomes), merged.States, merged.Transitions, exhaustive, nvio, time.Since(start).Seconds())
